@@ -47,14 +47,14 @@ theorem c06_facet_history_independent (F0 : List Facet) (h h' : List Op)
   obsEq_of_finv (run_finv F0 h) (run_finv F0 h') hsame
 
 /-- in particular for histories with literally the same docid ↦ paths mapping -/
-theorem c06_facet_history_independent' (F0 : List Facet) (h h' : List Op)
+theorem c06_facet_history_independent_get (F0 : List Facet) (h h' : List Op)
     (hsame : ∀ d, AMap.get (table h) d = AMap.get (table h') d) : ObsEq (run F0 h) (run F0 h') :=
   c06_facet_history_independent F0 h h' (sameListing_of_get hsame)
 
 /-- reindex_doc (= index_doc for this class) is equivalent to unindex_doc followed by index_doc -/
 theorem c06_facet_reindex (F0 : List Facet) (h : List Op) (d : Int) (v : Option (List Facet)) :
     ObsEq (run F0 (h ++ [.index d v])) (run F0 (h ++ [.unindex d, .index d v])) := by
-  apply c06_facet_history_independent'
+  apply c06_facet_history_independent_get
   intro d'
   simp only [table, List.foldl_append, List.foldl_cons, List.foldl_nil, Spec.stepT]
   exact (get_set_erase _ d v d').symm
@@ -103,7 +103,7 @@ theorem c06_facet_reset (F0 : List Facet) (h : List Op) :
 /-- … and is therefore indistinguishable from a new index, also after any further history -/
 theorem c06_facet_reset_then (F0 : List Facet) (h g : List Op) :
     ObsEq (run F0 (h ++ .reset :: g)) (run F0 g) := by
-  apply c06_facet_history_independent'
+  apply c06_facet_history_independent_get
   intro d
   simp [table, List.foldl_append, Spec.stepT]
 
